@@ -15,7 +15,7 @@ import (
 
 // Ctx is shared by all rules of one run.
 type Ctx struct {
-	trvRoleCache *trvRoleNames
+	trvRoleCache      *trvRoleNames
 	P                 *prog.Program
 	Tier              string
 	Notes             []string // informational lines for the evidence
